@@ -9,11 +9,10 @@ CONSTANTS
   MCN = 3
   MaxLen = 2
   Alphabet = "narrow"
-  Prefits = {"none"}
+  Prefits = {"none", "fit", "fitbase"}
   CfgSel = "all"
   Sample = 0
   Depth = 4
-CONSTRAINT Bound
 VIEW MCView
 INVARIANT TypeOK
 INVARIANT ImpliedWellFormed
